@@ -166,6 +166,61 @@ elif op == "script":
                     bad.append(f"get returned wrong bytes at step {step}")
         except BaseException as e:
             print("step", step, "raised", type(e).__name__, e)
+elif op == "reopen-header":
+    for h2, b0 in ((b"comment", b"descr"), (b"comment", b""), (b"", b"descr"), (b"", b""), (b"x" * int(cap(w.get("h2len", 3), 0, 2000)), b"y" * int(cap(w.get("b0len", 0), 0, 2000)))):
+        pp = os.path.join(d, f"hdr_{len(h2)}_{len(b0)}.ukv")
+        with UKVFile(pp, "w", h1=b"TESTH1", h2=h2, b0=b0) as f:
+            f.put(b"k1", b"value-one")
+            f.put(b"k2", b"value-two")
+        for mode in ("r", "a"):
+            with UKVFile(pp, mode) as g:
+                if g.h2 != h2 or g.b0 != b0:
+                    bad.append(f"comment {h2[:10]!r} / descriptor {b0[:10]!r} read back as {g.h2[:10]!r} / {g.b0[:10]!r} (mode {mode})")
+                ks = sorted(g.keys())
+                if ks != [b"k1", b"k2"] or g.get(b"k1") != b"value-one" or g.get(b"k2") != b"value-two":
+                    bad.append(f"after reopening a file with a {len(h2)}-byte comment and a {len(b0)}-byte descriptor block the records are {ks}")
+elif op == "doomed-write":
+    # a write session whose buffer holds a write that must be rejected (duplicate of a stored key, duplicate of an earlier
+    # buffered key, oversize key): the rejected write is dropped, its bytes are never visible, later sessions are unaffected
+    os.environ.setdefault("MOLLI_HOME", tempfile.mkdtemp())
+    from molli.storage.backends import UkvCollectionBackend
+    for why in ("dup-file", "dup-queue", "oversize"):
+        for bufsize in (10 ** 9, 64):
+            pp = os.path.join(d, f"lib_{why}_{bufsize}.ukv")
+            b = UkvCollectionBackend(pp, readonly=False, bufsize=bufsize)
+            with b.writing():
+                b.put("stored", b"first")
+            bad_key = {"dup-file": "stored", "dup-queue": "fresh1", "oversize": "k" * 300}[why]
+            got_inside = None
+            try:
+                with b.writing():
+                    b.put("fresh1", b"one")
+                    b.put(bad_key, b"SECOND")
+                    b.put("fresh2", b"two")
+                    if why != "oversize":
+                        try:
+                            got_inside = b.get(bad_key)
+                        except BaseException:
+                            got_inside = None
+            except BaseException:
+                pass
+            if got_inside == b"SECOND":
+                bad.append(f"[{why}, bufsize {bufsize}] get returned the bytes of a put that is rejected (the stored value is {('first' if why == 'dup-file' else 'one')!r})")
+            # the next sessions must work and show exactly the successful puts
+            try:
+                with b.writing():
+                    b.put("later", b"three")
+                with b.reading():
+                    ks = sorted(b.keys())
+                    vals = {k: b.get(k) for k in ks}
+                want = {"stored": b"first", "later": b"three"}
+                for k, v in want.items():
+                    if vals.get(k) != v:
+                        bad.append(f"[{why}, bufsize {bufsize}] after a rejected write, key {k!r} reads {vals.get(k)!r}, expected {v!r}")
+                if vals.get("fresh1") not in (None, b"one") or ("k" * 300) in vals:
+                    bad.append(f"[{why}, bufsize {bufsize}] bytes of a rejected write became visible: {vals}")
+            except BaseException as e:
+                bad.append(f"[{why}, bufsize {bufsize}] a rejected buffered write poisoned the handle: the next session raised {type(e).__name__}: {str(e)[:60]}")
 else:
     print("unknown witness op", op)
     sys.exit(1)
